@@ -147,10 +147,14 @@ func zzC11bUpstreamOpenRequest() {
 // C11.g: converter round trip for every message type with every scalar field symbolic: the message
 // that comes back equals the one that went in (nil and empty collections identified, times compared
 // as instants), extension fields present or absent.
+var zzC11Deep = false
+
+func zzC11gAllTypesDeep() { zzC11Deep = true; zzC11gAllTypes() }
+
 func zzC11gAllTypes() {
 	kind := vf.Choose("kind", vfmsg.Kinds)
 	ext := vf.Choose("ext", 2) == 1
-	g := &vfmsg.Gen{Profile: -1}
+	g := &vfmsg.Gen{Profile: -1, Deep: zzC11Deep}
 	m := g.Build(kind, ext)
 	pb, err := WireToProto(m)
 	vf.Assert("to-proto-ok", err == nil && pb != nil)
